@@ -191,7 +191,10 @@ func (e *absEnv) load(o *aobj, path string) aval {
 		return v
 	}
 	var v aval
-	if o.in != nil {
+	if o.in != nil && o.typ != nil && isNewFieldPath(o.typ, path) {
+		// a field the baseline does not have: the hand-built object knows nothing about it (see knownfields.go)
+		v = zeroOf(t)
+	} else if o.in != nil {
 		v = o.in(o, path, t)
 	} else {
 		v = zeroOf(t)
